@@ -106,6 +106,11 @@ def _map_query_error(error: duckdb.Error, sql_query: str) -> Exception:
         value = msg.split(": ", 1)[-1] if ": " in msg else "unknown"
         return RunTimeError("2-1-5-1", value=value, type_1="Time_Period", type_2="Date")
 
+    # cast(String -> Integer) of a numeral with a fraction
+    if "cannot cast non-integer string to integer" in msg_lower:
+        value = msg.split(": ", 1)[-1] if ": " in msg else "unknown"
+        return RunTimeError("2-1-5-1", value=value, type_1="String", type_2="Integer")
+
     # Custom VTL macro errors: TimeInterval → Date with different dates
     if "cannot cast timeinterval to date" in msg_lower:
         value = msg.split(": ", 1)[-1] if ": " in msg else "unknown"
